@@ -771,6 +771,7 @@ func runC14(tier string, args []string) {
 			run.Inconclusive("C14: race report inside harness code only (harness bug), see " + rr.file)
 		}
 	}
+	runC14Turns(run)
 	run.Finish(run.Pick(4, 40))
 }
 
